@@ -229,4 +229,36 @@ theorem revoked_never_refreshed (σ : String → C13.Status) (ops : List Op) (id
   have := C13.revoked_forever σ ops id h
   simp [C13.specStep, this]
 
+/-! ### degenerate proofs (points at infinity, zero responses)
+
+The recomputation is one linear map for every proof object, the degenerate ones included: for the proof
+made of three points at infinity and zero responses (only `s_y` free) the first recomputed commitment is
+`(-c) • V`. It determines the challenge, so such a proof cannot be answered for a challenge fixed in
+advance — unless the implementation special-cases it (seeded change `finalize-early-out-on-identity`,
+caught by the `mp.finalize` correspondence on exactly these objects). -/
+
+theorem finalize_degenerate (pp : Params G) (α c sY : F) (V : G) :
+    finalize pp α V c ⟨0, 0, 0, 0, 0, 0, 0, sY⟩ = ⟨(-c) • V, 0, 0, 0, 0⟩ := by
+  simp [finalize]
+
+theorem finalize_degenerate_binds_challenge (pp : Params G) (α c c' sY sY' : F) (V : G)
+    (hV : V ≠ 0)
+    (h : (finalize pp α V c ⟨0, 0, 0, 0, 0, 0, 0, sY⟩).rE = (finalize pp α V c' ⟨0, 0, 0, 0, 0, 0, 0, sY'⟩).rE) :
+    c = c' := by
+  rw [finalize_degenerate, finalize_degenerate] at h
+  have h2 : (-c) • V = (-c') • V := h
+  have h3 : (c' - c) • V = 0 := by
+    have : (c' - c) • V = (-c) • V - (-c') • V := by module
+    rw [this, h2, sub_self]
+  by_contra hne
+  have hd : c' - c ≠ 0 := fun e => hne (sub_eq_zero.mp e).symm
+  have : V = (c' - c)⁻¹ • ((c' - c) • V) := by rw [smul_smul, inv_mul_cancel₀ hd, one_smul]
+  rw [h3, smul_zero] at this
+  exact hV this
+
+/-- non-vacuity: over the coordinate instance the degenerate proof's recomputation differs for two challenges -/
+example : finalize (F := ℚ) (G := ℚ) ⟨1, 2, 3⟩ 5 7 1 ⟨0, 0, 0, 0, 0, 0, 0, 4⟩ ≠
+    finalize (F := ℚ) (G := ℚ) ⟨1, 2, 3⟩ 5 7 2 ⟨0, 0, 0, 0, 0, 0, 0, 4⟩ := by
+  simp [finalize]
+
 end AC.C06
